@@ -409,7 +409,7 @@ func (c *FnCtx) call(ins ssa.Instruction, cc *ssa.CallCommon, val ssa.Value) {
 		if !c.nonNilValue(cc.Value) {
 			txt := c.g.exprTextAt(pos, "call")
 			if txt == "" {
-				txt = cc.Value.Name() + "." + cc.Method.Name()
+				txt = stableName(cc.Value) + "." + cc.Method.Name()
 			}
 			o := c.oblig(fmt.Sprintf("%s/nil:%s", c.name, txt), "nil", c.g.posStr(pos), true)
 			c.assert(o, not(eq(recv, "0")))
